@@ -63,9 +63,9 @@ RC_WRITE = dict(
     raises={"*": {"declared_or_empty": "implies(old(stored(self)), rc(self))"}, "KeyError": {"declared": "implies(old(stored(self)), rc(self))"}},
 )
 C("_Tree._set", cls=TREE, params={"key": "K", "value": ["none", "V"], "ifunset": "bool"},
-  requires={}, returns=SET_RET, props=["C08"], **RC_WRITE)
+  requires={}, returns=SET_RET, props=["C08", "C03"], **RC_WRITE)
 C("_Tree._del", cls=TREE, params={"key": "K"},
-  requires={}, returns=DEL_RET, props=["C08"], **RC_WRITE)
+  requires={}, returns=DEL_RET, props=["C08", "C03"], **RC_WRITE)
 
 # ---- C13 / C09: the tree entry points convert before they descend ---------
 # (typestate view: child calls are havocked; the clause is about the
